@@ -33,7 +33,11 @@ Meaning of the Rust constructs, given ONCE here:
   `X.forVec` (the elements in order); both over the loop-carried variables; a `?` in the body ends the function.
 * the archive in `ZipArchive::extract` is `SrcOps` (`self.len()`, `self.by_index(i)`); in `ZipStreamReader::extract`
   it is `StreamOps` (`self.visit(&mut visitor)`: the callee receives the two translated callbacks of the local
-  `impl ZipStreamVisitor` and the visitor's value, and returns the visitor's value).
+  `impl ZipStreamVisitor` and the visitor's value, and returns the visitor's value — an `X.K` computation: also when
+  it fails, since `extract` binds the `Result` (`let visited = self.visit(&mut extractor);`) and goes on using the
+  visitor.  `rs2lean` accepts a local visitor only when in each callback every write to `self` FOLLOWS the callback's
+  last `?`, so a callback that fails has not touched the visitor: at an `Err` the visitor is as the last complete
+  callback left it).
 * a `&mut self` method with `&mut` parameters returns its value together with `self` and those parameters as it left
   them; after an `Err` they are not observable (every caller in the subset returns at once on `?`).
   The ONE exception is a "collector": a `&mut self` method of the seekable archive whose body is exactly one
@@ -135,6 +139,13 @@ def keep {E' : Type} (x : K W E σ) : X W E' (Except E Unit × σ) := fun w =>
   | (w1, s, .err e) => (w1, .ok (.error e, s))
   | (w1, _, .panic) => (w1, .panic)
 
+/-- `self.f(.., &mut v)?` for an `X.K` computation: at an `Err` the function returns at once -/
+def unK (x : K W E σ) : X W E (Unit × σ) := fun w =>
+  match x w with
+  | (w1, s, .ok ()) => (w1, .ok ((), s))
+  | (w1, _, .err e) => (w1, .err e)
+  | (w1, _, .panic) => (w1, .panic)
+
 /-- `let r = f(..);` for a translated `f` returning a `Result`: the `Result` as a value -/
 def attempt {E' : Type} (x : X W E α) : X W E' (Except E α) := fun w =>
   match x w with
@@ -214,6 +225,6 @@ structure SrcOps (W F E : Type) where
 
 /-- the streaming reader as far as `ZipStreamReader::extract` uses it: `self.visit(&mut visitor)` -/
 structure StreamOps (W F Meta E V : Type) where
-  visit : (V → F → X W E (Unit × V × F)) → (V → Meta → X W E (Unit × V)) → V → X W E (Unit × V)
+  visit : (V → F → X W E (Unit × V × F)) → (V → Meta → X W E (Unit × V)) → V → X.K W E V
 
 end Rs
